@@ -1,0 +1,136 @@
+//go:build verif
+
+package rsync
+
+// Contracts for govc (comment-only; compiled only with -tags verif). Properties C34, C31.
+//
+//@ spec import lib/sync
+//
+// ---- CheckAndSet: the snapshot / backup / integrity-check gate --------------------------
+//@ type CheckAndSet
+//@   monitor mu protects state, owner, startT
+//@   invariant [free-clean] !self.state ==> self.owner == ""
+//
+//@ func (*CheckAndSet) Begin
+//@   requires [recv] c != nil
+//@   assigns state, owner, startT
+//@   ensures [admit-iff-free] (result == nil) == !atlock(c.state)
+//@   ensures [acquired] result == nil ==> (c.state && c.owner == owner)
+//@   ensures [refused-err] result != nil ==> isErr(result, ErrCASConflict)
+//@   ensures [refused] result != nil ==> (c.state == atlock(c.state) && c.owner == atlock(c.owner) && c.startT == atlock(c.startT))
+//
+//@ func (*CheckAndSet) End
+//@   requires [recv] c != nil
+//@   assigns state, owner, startT
+//@   ensures [released] !c.state && c.owner == ""
+//
+//@ func (*CheckAndSet) Owner
+//@   requires [recv] c != nil
+//
+// BeginWithRetry (C31): attempts are at most retryInterval (+ timer slack) apart, success means
+// the gate was acquired, and the timeout error is returned only after the deadline has passed.
+//@ func (*CheckAndSet) BeginWithRetry
+//@   requires [recv] c != nil
+//@   assigns state, owner, startT
+//@   ghost var tries int = 0
+//@   ghost var lastTry int = 0
+//@   assert @c.Begin: [gap] tries == 0 || _now - lastTry <= max(retryInterval, 0) + _slack
+//@   ghost update before @c.Begin: lastTry = _now
+//@   ghost update before @c.Begin: tries = tries + 1
+//@   loop 1 invariant [deadline] deadline == old(_now) + timeout && _now >= old(_now)
+//@   loop 1 invariant [tries] tries >= 0 && (tries == 0 || (lastTry <= _now && _now - lastTry <= max(retryInterval, 0) + _slack))
+//@   ensures [acquired] result == nil ==> (c.state && c.owner == owner)
+//@   ensures [timeout-only-after] result == ErrCASConflictTimeout ==> _now > old(_now) + timeout
+//@   ensures [outcomes] result == nil || result == ErrCASConflictTimeout || !isErr(result, ErrCASConflict)
+//@   ensures [tried] tries >= 1
+//
+// ---- MultiRSW: readers or one writer ------------------------------------------------------
+//@ type MultiRSW
+//@   monitor mu protects owner, numReaders
+//@   invariant [count] self.numReaders >= 0
+//@   invariant [excl] !(self.owner != "" && self.numReaders > 0)
+//
+//@ func NewErrMRSWConflict
+//@   assigns nothing
+//@   ensures [nonnil] result != nil
+//
+//@ func (*MultiRSW) BeginRead
+//@   requires [recv] r != nil
+//@   assigns owner, numReaders
+//@   ensures [iff] (result == nil) == (atlock(r.owner) == "")
+//@   ensures [admitted] result == nil ==> (r.numReaders == atlock(r.numReaders) + 1 && r.owner == "")
+//@   ensures [refused] result != nil ==> (r.numReaders == atlock(r.numReaders) && r.owner == atlock(r.owner))
+//
+//@ func (*MultiRSW) BeginReadBlocking
+//@   requires [recv] r != nil
+//@   assigns owner, numReaders
+//@   loop 1 invariant [mon] r.numReaders >= 0 && !(r.owner != "" && r.numReaders > 0)
+//@   ensures [admitted] r.owner == "" && r.numReaders == atlock(r.numReaders) + 1 && atlock(r.owner) == ""
+//
+//@ func (*MultiRSW) EndRead
+//@   requires [recv] r != nil
+//@   assigns owner, numReaders, condBcast
+//@   ensures [dec] r.numReaders == atlock(r.numReaders) - 1 && r.numReaders >= 0 && r.owner == atlock(r.owner)
+//@   ensures [wake] r.numReaders == 0 ==> condBcast[r.cond] == old(condBcast)[r.cond] + 1
+//
+//@ func (*MultiRSW) BeginWrite
+//@   requires [recv] r != nil
+//@   assigns owner, numReaders
+//@   ensures [iff] (result == nil) == (atlock(r.owner) == "" && atlock(r.numReaders) == 0)
+//@   ensures [admitted] result == nil ==> (r.owner == owner && owner != "" && r.numReaders == 0)
+//@   ensures [refused] result != nil ==> (r.numReaders == atlock(r.numReaders) && r.owner == atlock(r.owner))
+//
+//@ func (*MultiRSW) BeginWriteBlocking
+//@   requires [recv] r != nil
+//@   assigns owner, numReaders
+//@   loop 1 invariant [mon] r.numReaders >= 0 && !(r.owner != "" && r.numReaders > 0)
+//@   ensures [admitted] r.owner == owner && owner != "" && r.numReaders == 0 && atlock(r.owner) == "" && atlock(r.numReaders) == 0
+//
+//@ func (*MultiRSW) EndWrite
+//@   requires [recv] r != nil
+//@   assigns owner, numReaders, condBcast
+//@   ensures [released] r.owner == "" && atlock(r.owner) != "" && r.numReaders == atlock(r.numReaders)
+//@   ensures [wake] condBcast[r.cond] == old(condBcast)[r.cond] + 1
+//
+//@ func (*MultiRSW) UpgradeToWriter
+//@   requires [recv] r != nil
+//@   assigns owner, numReaders
+//@   ensures [iff] (result == nil) == (atlock(r.owner) == "" && atlock(r.numReaders) == 1)
+//@   ensures [upgraded] result == nil ==> (r.owner == owner && r.numReaders == 0)
+//@   ensures [refused] result != nil ==> (r.numReaders == atlock(r.numReaders) && r.owner == atlock(r.owner))
+//
+// ---- ReadyTarget: index waiters ---------------------------------------------------------------
+// T is instantiated with uint64 in rqlite; the type parameter is modelled as an integer.
+//@ type ReadyTarget
+//@   monitor mu protects currentTarget, subscribers
+//@   invariant [pending] forall i int :: 0 <= i && i < len(self.subscribers) ==> (self.subscribers[i] != nil && self.subscribers[i].target > self.currentTarget)
+//
+//@ func (*ReadyTarget) Subscribe
+//@   requires [recv] r != nil
+//@   assigns currentTarget, subscribers, chanClosed
+//@   ensures [ready] target <= atlock(r.currentTarget) ==> (chanClosed[result] && r.subscribers == atlock(r.subscribers))
+//@   ensures [pending] target > atlock(r.currentTarget) ==> (!chanClosed[result] && len(r.subscribers) == len(atlock(r.subscribers)) + 1 && r.subscribers[len(r.subscribers)-1].ch == result && r.subscribers[len(r.subscribers)-1].target == target)
+//@   ensures [others] forall c int :: c != result ==> chanClosed[c] == old(chanClosed)[c]
+//@   ensures [cur] r.currentTarget == atlock(r.currentTarget)
+//
+//@ func (*ReadyTarget) Signal
+//@   requires [recv] r != nil
+//@   assigns currentTarget, subscribers, chanClosed
+//@   loop 1 invariant [closed-done] forall k int :: (0 <= k && k < _i && r.subscribers[k].target <= index) ==> chanClosed[r.subscribers[k].ch]
+//@   loop 1 invariant [only-due] forall c int :: (chanClosed[c] && !atlock(chanClosed)[c]) ==> (exists k int :: 0 <= k && k < _i && r.subscribers[k].ch == c && r.subscribers[k].target <= index)
+//@   loop 1 invariant [rem] forall k int :: (0 <= k && k < len(remainingSubscribers)) ==> (remainingSubscribers[k] != nil && remainingSubscribers[k].target > index)
+//@   loop 1 invariant [kept] forall j int :: (0 <= j && j < _i && r.subscribers[j].target > index) ==> (exists k int :: 0 <= k && k < len(remainingSubscribers) && remainingSubscribers[k] == r.subscribers[j])
+//@   ensures [stale] index <= atlock(r.currentTarget) ==> (r.currentTarget == atlock(r.currentTarget) && r.subscribers == atlock(r.subscribers) && chanClosed == atlock(chanClosed))
+//@   ensures [advance] index > atlock(r.currentTarget) ==> r.currentTarget == index
+//@   ensures [woken] index > atlock(r.currentTarget) ==> (forall k int :: (0 <= k && k < len(atlock(r.subscribers)) && atlock(r.subscribers[k].target) <= index) ==> chanClosed[atlock(r.subscribers[k].ch)])
+//@   ensures [never-before] forall c int :: (chanClosed[c] && !atlock(chanClosed)[c]) ==> (exists k int :: 0 <= k && k < len(atlock(r.subscribers)) && atlock(r.subscribers[k].ch) == c && atlock(r.subscribers[k].target) <= index)
+//@   ensures [kept] index > atlock(r.currentTarget) ==> (forall j int :: (0 <= j && j < len(atlock(r.subscribers)) && atlock(r.subscribers[j].target) > index) ==> (exists k int :: 0 <= k && k < len(r.subscribers) && r.subscribers[k] == atlock(r.subscribers[j])))
+//
+//@ func (*ReadyTarget) Reset
+//@   requires [recv] r != nil
+//@   assigns currentTarget, subscribers
+//@   ensures [zero] r.currentTarget == 0 && len(r.subscribers) == 0
+//
+//@ func (*ReadyTarget) Len
+//@   requires [recv] r != nil
+//@   ensures [len] result == len(r.subscribers)
